@@ -1014,44 +1014,36 @@ class CExec(object):
         raise OutsideSubset("call of %s: no body, contract or libm model" % name)
 
     def call_uninterpreted(self, name, args, st):
-        """name(args...) with pointer arguments treated as: arrays are read-only
-        inputs (identified by array + offset: the function may read any element),
-        pointers to scalar cells are outputs."""
+        """name(args...) as an uninterpreted function of its inputs: scalars,
+        and for read-only vector arguments the elements [0, declared length);
+        pointers to scalar cells are outputs (name.out<k>)."""
         ins, outs = [], []
-        for a in args:
+        self.calls_seen.append((name, args))
+        vl = getattr(self, "vector_lengths", {})
+        for pos, a in enumerate(args):
             if isinstance(a, Ptr):
                 if isinstance(a.target, Cell):
                     outs.append(a.target)
                 elif isinstance(a.target, CArr):
-                    ins.append(("array", a))
+                    ln = vl.get((name, pos))
+                    if ln is None:
+                        raise OutsideSubset("vector argument %d of uninterpreted %s needs a declared length"
+                                            % (pos, name))
+                    off = a.offset if not isinstance(a.offset, int) else z3.IntVal(a.offset)
+                    for j in range(ln):
+                        ins.append(to_real(a.target.at(z3.simplify(off + j))))
                 else:
                     raise OutsideSubset("struct passed to uninterpreted %s" % name)
             else:
-                ins.append(("scalar", a))
-        self.calls_seen.append((name, args))
-        scal = []
-        for kind, a in ins:
-            if kind == "scalar":
-                scal.append(to_real(a))
-            else:
-                # read-only vector argument: abstracted by the elements of a
-                # declared length (contracts give the length per parameter)
-                n = self.vector_arg_len.get(name, {}).get(len(scal), None) if hasattr(self, "vector_arg_len") else None
-                n = n or a.target.length and 0
-                ln = self.vector_lengths.get((name, len(scal)), None) if hasattr(self, "vector_lengths") else None
-                if ln is None:
-                    raise OutsideSubset("vector argument of uninterpreted %s needs a declared length" % name)
-                off = a.offset if not isinstance(a.offset, int) else z3.IntVal(a.offset)
-                for j in range(ln):
-                    scal.append(to_real(a.target.at(z3.simplify(off + j))))
+                ins.append(to_real(a))
         if outs:
             for k, cell in enumerate(outs):
-                f = uf("%s.out%d" % (name, k), len(scal))
-                self.write(cell, f(*scal) if scal else z3.Real("%s.out%d" % (name, k)), st)
-            fr = uf("%s.ret" % name, len(scal))
-            return fr(*scal) if scal else z3.Real(name + ".ret")
-        f = uf(name, len(scal))
-        return f(*scal) if scal else z3.Real(name + "()")
+                f = uf("%s.out%d" % (name, k), len(ins))
+                self.write(cell, f(*ins) if ins else z3.Real("%s.out%d" % (name, k)), st)
+            fr = uf("%s.ret" % name, len(ins))
+            return fr(*ins) if ins else z3.Real(name + ".ret")
+        f = uf(name, len(ins))
+        return f(*ins) if ins else z3.Real(name + "()")
 
 
 # --------------------------------------------------------------------------
